@@ -66,6 +66,11 @@ func Enumerate(thorough bool, yield func(idx int, c Case)) int {
 		idx++
 	}
 	for _, cb := range []string{"nil", "error", "panic"} {
+		// no transaction bound at all: a scope that runs its callback outside any global transaction (propagation NotSupported,
+		// Never, or Supports with nothing to join) still has to report the callback's outcome truthfully and send nothing
+		for _, role := range []string{"outside-notsupported", "outside-never", "outside-supports", "outside-notsupported-suspending"} {
+			emit(Case{cb, "ok", nil, 3, "never", role})
+		}
 		// participant: no coordinator traffic at all
 		for _, cancel := range []string{"never", "in-callback"} {
 			emit(Case{cb, "ok", nil, 3, cancel, "participant"})
@@ -200,9 +205,18 @@ func runCase(c Case) observed {
 	if c.Cancel == "before-begin" {
 		cancel()
 	}
-	if c.Role == "participant" {
+	if c.Role == "participant" || c.Role == "outside-notsupported-suspending" {
 		ctx = tm.InitSeataContext(ctx)
 		tm.SetXID(ctx, "192.168.0.1:8091:77777")
+	}
+	gc := &tm.GtxConfig{Name: "c04", Timeout: 30 * time.Second}
+	switch c.Role {
+	case "outside-notsupported", "outside-notsupported-suspending":
+		gc.Propagation = tm.NotSupported
+	case "outside-never":
+		gc.Propagation = tm.Never
+	case "outside-supports":
+		gc.Propagation = tm.Supports
 	}
 	func() {
 		defer func() {
@@ -210,7 +224,7 @@ func runCase(c Case) observed {
 				ob.Escaped = fmt.Sprint(r)
 			}
 		}()
-		err := tm.WithGlobalTx(ctx, &tm.GtxConfig{Name: "c04", Timeout: 30 * time.Second}, func(cctx context.Context) error {
+		err := tm.WithGlobalTx(ctx, gc, func(cctx context.Context) error {
 			ob.CbRan = true
 			ob.CbXid = tm.GetXID(cctx)
 			if c.Cancel == "in-callback" {
@@ -248,6 +262,21 @@ func check(c Case, ob observed) (clause, detail string) {
 	}
 	if len(ob.Commits) > 0 && len(ob.Rollbacks) > 0 {
 		return "both-decisions", d("commit and rollback were both requested: %v / %v", ob.Commits, ob.Rollbacks)
+	}
+	if strings.HasPrefix(c.Role, "outside-") {
+		if ob.Begins+len(ob.Commits)+len(ob.Rollbacks) > 0 {
+			return "outside-scope-talks-to-coordinator", d("a scope without a transaction sent begin=%d commit=%v rollback=%v", ob.Begins, ob.Commits, ob.Rollbacks)
+		}
+		if ob.CbRan && ob.CbXid != "" {
+			return "outside-scope-sees-xid", d("the callback of a scope without a transaction saw xid %q", ob.CbXid)
+		}
+		if c.Callback != "nil" && ob.RetNil {
+			return "silent-success", d("callback outcome %s but nil was returned", c.Callback)
+		}
+		if c.Callback == "nil" && !ob.RetNil {
+			return "spurious-error", d("the callback returned nil but WithGlobalTx returned %q", ob.Ret)
+		}
+		return "", ""
 	}
 	if c.Role == "participant" {
 		if ob.Begins+len(ob.Commits)+len(ob.Rollbacks) > 0 {
@@ -364,7 +393,7 @@ func evalCase(r *rep.Run, c Case, idx int) {
 
 func Run(r *rep.Run) {
 	thorough := r.Tier == "thorough"
-	r.Rule = "complete product: callback outcome {nil, error, panic} x begin answer {ok, failure result, transport error, no reply} x every effective second-phase answer sequence over {ok, failure result, transport error, no reply} up to the retry bound x retry setting {1,2,3, 0=unbounded up to a horizon of 4 attempts} x context cancellation {never, before begin, inside the callback, after the k-th second-phase attempt} x role {initiator, participant}; single thread, virtual time (back-off waits elapse at once, the RPC timeout expires exactly for dropped requests). Non-trivial = any fault, cancellation or non-nil callback outcome."
+	r.Rule = "complete product: callback outcome {nil, error, panic} x begin answer {ok, failure result, transport error, no reply} x every effective second-phase answer sequence over {ok, failure result, transport error, no reply} up to the retry bound x retry setting {1,2,3, 0=unbounded up to a horizon of 4 attempts} x context cancellation {never, before begin, inside the callback, after the k-th second-phase attempt} x role {initiator, participant, and scopes that run outside any transaction: NotSupported (with and without a transaction to suspend), Never, Supports with nothing to join}; single thread, virtual time (back-off waits elapse at once, the RPC timeout expires exactly for dropped requests). Non-trivial = any fault, cancellation or non-nil callback outcome."
 	r.Assume = []string{"coordinator = faketc; time is virtual (vtime overlay of backoff.go and getty_client.go)", "cancellation 'between callback and second phase' is injected at the last instant of the callback"}
 	if replay := os.Getenv("VERIF_REPLAY"); replay != "" {
 		b, err := os.ReadFile(replay)
